@@ -425,13 +425,13 @@ func TestCheck(t *testing.T) {
 	rep := report.New("C18", "exploration")
 	rep.Meta(
 		"Layer 1 (cover/*, url, mixed): every pair (allow-list ClusterRole rule set, permission-request rule set) of the stated sizes over the rule universe is built from Free choices and given to the real ClusterRoleBackedValidator; if it accepts, every concrete request (universe = constants mentioned + one fresh symbol per dimension) granted by the requests must be granted by the allow-list according to an independent evaluator of Kubernetes RBAC semantics (soundness only; 'stricter' is counted, not failed). A pair is non-trivial when some allow rule and some request rule agree in at least one dimension (group/resource/name/verb or url/verb) and either disagree in another or are different rules (coverage through a wildcard or list, not identity). "+
-			"Layer 2 (reconcile/*): the real roles.Reconciler wired as roles.Setup over simkube for every allow-list option x request option x family label x package sources x owned references x stale roles: oracle-uncovered or validator-rejected requests => no effective ClusterRole write; otherwise the stored system role grants only what an independently computed allowed rule set grants (own CRDs, CRDs of same-family same-registry-and-org revisions, */finalizers in those groups, baseline, requests), edit/view roles only CRD resources. Non-trivial when the OrgDiffer is consulted (a member carries the same family label) or the validator has a non-empty request. binding: subjects and roleRef of the ClusterRoleBinding. "+
+			"Layer 2 (reconcile/*): the real roles.Reconciler wired as roles.Setup over simkube for every allow-list option x request option x family label x package sources x owned references x stale roles: oracle-uncovered or validator-rejected requests => no effective ClusterRole write; otherwise the stored system role grants only what an independently computed allowed rule set grants (own CRDs, CRDs of same-family same-registry-and-org revisions, */finalizers in those groups, baseline, requests), edit/view roles only CRD resources. Non-trivial when the OrgDiffer is consulted (a member carries the same family label) or the validator has a non-empty request. binding: subjects and roleRef of the ClusterRoleBinding. reconcile/requests-rewritten: a third party rewrites the revision's status.permissionRequests just before the k-th API call of a reconcile (every k, every edit of the menu), then the revision is reconciled until a reconcile writes nothing; after every reconcile the system role grants nothing beyond family CRDs + baseline + what the allow-list covers, and a reconcile that started on uncovered requests writes no ClusterRole; non-trivial when the rewrite falls between two calls of a reconcile. "+
 			"Layer 3 (xrd): real definition.Reconciler; every role grants only {composite, claim} x {'', status, finalizers} in the XRD group and grants at least read of the composite (and claim).",
 		[]string{
 			"Kubernetes RBAC semantics as documented (no wildcard for resourceNames; '*/sub' matches a subresource of any resource; nonResourceURLs exact or trailing '*')",
 			"OCI reference convention for the family oracle: the part before the first '/' is a registry host iff it contains '.' or ':' or is 'localhost', otherwise the configured default registry applies; organisation = first repository path segment; sources without an organisation segment are not enumerated",
 			"the baseline is the cross product written in the code's constant rulesSystemExtra (groups {'', coordination.k8s.io} x {secrets, configmaps, events, leases})",
-			"one reconcile per case, no API faults (exploration level)",
+			"one reconcile per case (reconcile/requests-rewritten and events/*: reconciled to quiescence), no API faults (exploration level)",
 		},
 		[]string{"simkube (API server model)", "h/explore", "reference evaluator eval_test.go", "reference family oracle (family_test.go)"},
 	)
@@ -462,6 +462,7 @@ func TestCheck(t *testing.T) {
 	)
 	scs = append(scs, recon[1:]...)
 	scs = append(scs, eventScenarios(rep, report.Bubble(t))...)
+	scs = append(scs, rewriteScenario(t, rep))
 	if report.Thorough() {
 		// Split by the first allow rule so that the scenarios spread over shards.
 		for i := 0; i < len(core.rules)-1; i++ {
